@@ -203,7 +203,8 @@ func TestDriveC16(t *testing.T) {
 	r := rand.New(rand.NewSource(seed))
 	for i := 0; i < n; i++ {
 		sseed := r.Int63()
-		body := func() { runC16Scenario(rec, rand.New(rand.NewSource(sseed)), parallel, nfMax) }
+		variation := int((seed+int64(i))%3) + 10*int(((seed+int64(i))/3)%3) // variation + 10 * kind of fault
+		body := func() { runC16Scenario(rec, rand.New(rand.NewSource(sseed)), parallel, nfMax, variation) }
 		if parallel {
 			synctest.Test(t, func(t *testing.T) { body() })
 		} else {
@@ -212,7 +213,7 @@ func TestDriveC16(t *testing.T) {
 	}
 }
 
-func runC16Scenario(rec *Recorder, r *rand.Rand, parallel bool, nfMax int) {
+func runC16Scenario(rec *Recorder, r *rand.Rand, parallel bool, nfMax int, variation int) {
 	nf := 2
 	if nfMax > 2 {
 		nf = 2 + r.Intn(nfMax-1)
@@ -283,23 +284,100 @@ func runC16Scenario(rec *Recorder, r *rand.Rand, parallel bool, nfMax int) {
 	defer cancel()
 	var mu sync.Mutex
 	started := 0
+	// variations: 0 = undisturbed; 1 = the daemon is stopped while one fan is being analysed and others wait for their
+	// turn; 2 = a read of the fan being measured fails in the middle of its measurement (the sequence fails or goes on,
+	// either way the next fan must not start before this one is done with the device)
+	delay := time.Duration(r.Intn(1500)) * time.Millisecond
+	inAnalysis := 0 // fans between AnalysisStart and AnalysisEnd
+	faultReg := []string{"rpm", "pwm"}[r.Intn(2)]
+	faultN := 1 + r.Intn(3)
+	faultKind := variation / 10
+	variation = variation % 10
+	faultSkip := r.Intn(6)
+	phases := 0
+	fired := false
+	// helper goroutines end with the scenario (a bubble must not be left with sleepers)
+	stop := make(chan struct{})
+	var bg sync.WaitGroup
+	after := func(d time.Duration, fn func()) {
+		bg.Add(1)
+		go func() {
+			defer bg.Done()
+			select {
+			case <-stop:
+			case <-time.After(d):
+				fn()
+			}
+		}()
+	}
 	h.OnEvent = func(n int, fanId, event string) {
+		if event == "AnalysisStart" || event == "AnalysisEnd" || event == "AnalysisBegin" || event == "MeasureBegin" {
+			mu.Lock()
+			phases++
+			switch event {
+			case "AnalysisStart":
+				inAnalysis++
+			case "AnalysisEnd":
+				inAnalysis--
+			}
+			// 1: stop the daemon when a fan has just queued up behind a running analysis; 2: fault in a measurement
+			fire := !fired && ((variation == 1 && event == "AnalysisBegin" && inAnalysis > 0) || (variation == 2 && event == "MeasureBegin"))
+			if fire {
+				fired = true
+			}
+			mu.Unlock()
+			if fire && variation == 1 {
+				after(delay, func() {
+					rec.Emit(Ev{"ev": "Cancel", "why": "during analysis", "vt": h.vt()})
+					cancel()
+				})
+			}
+			if fire && variation == 2 {
+				after(delay, func() {
+					// which access fails decides whether the sequence aborts: a refused PWM write always does, a failed
+					// RPM read only outside the settle loop, a failed PWM read only if it is not the feature probe
+					switch faultKind {
+					case 0:
+						h.WriteFault(fanId+".pwm", 1)
+					case 1:
+						h.ReadFault(fanId+".rpm", faultN*10)
+					default:
+						h.ReadFaultSkip(fanId+"."+faultReg, faultN, faultSkip)
+					}
+				})
+			}
+		}
 		if event == "LoopStarted" {
 			mu.Lock()
 			started++
 			all := started == len(cfg.Fans)
 			mu.Unlock()
 			if all {
-				go func() {
-					time.Sleep(300 * time.Millisecond)
+				after(300*time.Millisecond, func() {
 					rec.Emit(Ev{"ev": "Cancel", "why": "all started", "vt": h.vt()})
 					cancel()
-				}()
+				})
 			}
 		}
 	}
-	h.Start(ctx, Ev{"scenario": Ev{"c16": true}})
+	// a run in which a fan failed never reaches "all started": stop once every fan is regulating or has returned
+	var watch func()
+	watch = func() {
+		mu.Lock()
+		st := started
+		mu.Unlock()
+		if ctx.Err() == nil && st+h.Returned() >= len(cfg.Fans) && st < len(cfg.Fans) && h.Returned() > 0 {
+			rec.Emit(Ev{"ev": "Cancel", "why": "rest started, some failed", "vt": h.vt()})
+			cancel()
+			return
+		}
+		after(200*time.Millisecond, watch)
+	}
+	after(200*time.Millisecond, watch)
+	h.Start(ctx, Ev{"scenario": Ev{"c16": true, "variation": variation}})
 	h.Wait()
+	close(stop)
+	bg.Wait()
 	h.Final()
 }
 
